@@ -11,6 +11,7 @@ import tokenize
 
 from lib.common import *
 from lib import edits
+from lib.oracle import cmp_ast
 from lib.progs import corpus
 from props.C11 import stage_translate
 
@@ -488,6 +489,9 @@ def stage_targeted(ctx: Ctx):
         except Exception:
             return None
 
+    def comment_lines(src):
+        return [(t.start[0] - 1, t.string) for t in _tk.generate_tokens(_io.StringIO(src).readline) if t.type == _tk.COMMENT]
+
     # (a)
     trivias = [(True, 'line+2'), 'line+', (False, 'block+2'), ('all+', 'line+1'), (True, 'block+'), ('block', 'line+1'), (True, 'none+2'), (True, True), None,
                (False, '+1'), (True, '+'), ('block', '+2'), ('+1', '+1'), (True, 'line'), ('none', '-1'), (True, '-')]   # '+N' / '-N' alone is shorthand for 'line+N' / 'line-N' (trailing)
@@ -703,6 +707,78 @@ def stage_targeted(ctx: Ctx):
                     if ta is None or tc is None or ca is None or any(c not in ca for c in cc) or any(collections.Counter(ta)[t] < c for t, c in collections.Counter(tc).items() if t not in (',',)):
                         ctx.violation('comment-lost|insert-into-multiline-sequence|at-end' if i == n - 1 and ta is not None and tc is not None and all(collections.Counter(ta)[t] >= c for t, c in collections.Counter(tc).items() if t != ',') else 'view-after-cut|replace',
                                       'a replace through an emptied single-item view removed neighbouring items or comments', {'before': src, 'field': fld, 'idx': i, 'after_cut': after_cut, 'after': after})
+    # (g) optional single-node fields deleted / put back / added when the neighbouring child is parenthesized over several lines with comments inside:
+    #     only the text of the field (and its own separator / keyword) may change
+    opt = [('assert (\n    a and  # first\n    b      # second\n), "msg"\n', 'body[0]', 'msg'), ('assert (a  # t\n), (\n    m  # mc\n)\n', 'body[0]', 'msg'),
+           ('raise (\n    E  # why\n) from (\n    c  # cause\n)\n', 'body[0]', 'cause'), ('x: (\n    int  # ann\n) = (\n    1  # val\n)\n', 'body[0]', 'value'),
+           ('def f() -> (\n    int  # ret\n): pass\n', 'body[0]', 'returns'), ('def f(a  # pa\n      ) -> int: pass\n', 'body[0]', 'returns'),
+           ('with (a  # ctx\n      ) as b: pass\n', 'body[0].items[0]', 'optional_vars'), ('def g():\n    return (\n        v  # val\n    )\n', 'body[0].body[0]', 'value'),
+           ('y = z[(a  # lo\n      ):(b  # hi\n         ):(c  # st\n            )]\n', 'body[0].value.slice', 'lower'), ('y = z[(a  # lo\n      ):(b  # hi\n         ):(c  # st\n            )]\n', 'body[0].value.slice', 'upper'),
+           ('y = z[(a  # lo\n      ):(b  # hi\n         ):(c  # st\n            )]\n', 'body[0].value.slice', 'step'),
+           ('match v:\n    case (x) if (\n        g  # guard\n    ): pass\n', 'body[0].cases[0]', 'guard'), ('match v:\n    case (x  # pat\n          ) if g: pass\n', 'body[0].cases[0]', 'guard'),
+           ('def f(a: (int  # ann\n          ) = 1): pass\n', 'body[0].args.args[0]', 'annotation'), ('def f(*a: (int  # ann\n           )): pass\n', 'body[0].args.vararg', 'annotation'),
+           ('def g():\n    x = yield (v  # c\n               )\n', 'body[0].body[0].value', 'value'), ('try: pass\nexcept (E  # exc\n        ): pass\n', 'body[0].handlers[0]', 'type'),
+           ('f"{(a  # v\n)!r:>{(w  # wd\n)}}"\n', 'body[0].value.values[0]', 'format_spec'), ('type T[U: (int  # bound\n          )] = U\n', 'body[0].type_params[0]', 'bound'),
+           ('match v:\n    case (x  # p\n          ) as y: pass\n', 'body[0].cases[0].pattern', 'pattern'), ('lambda a=(1  # d\n          ): (a  # body\n              )\n', 'body[0].value', 'args')]
+    for src, path, fld in opt:
+        try:
+            probe = fst.FST(src, 'exec')
+            node = probe.child_from_path(path)
+            child = getattr(node, fld)
+            assert isinstance(child, fst.FST)
+        except Exception as e:
+            ctx.broken.append({'kind': 'harness', 'name': 'targeted-g', 'detail': f'{src!r} {path}.{fld}: {e!r}'[:200]})
+            continue
+        cl = child.pars() if isinstance(child.a, (ast.expr, ast.pattern)) else child.bloc
+        inner = [c for ln, c in comment_lines(src) if cl[0] <= ln <= cl[2]]
+        outer = [c for ln, c in comment_lines(src) if not (cl[0] <= ln <= cl[2])]      # (a comment on the last line of the child, behind it, may go with it: documented trailing trivia)
+        for how in ('put-none', 'remove', 'del-attr'):
+            root = fst.FST(src, 'exec')
+            node = root.child_from_path(path)
+            saved = getattr(node, fld).copy()
+            try:
+                if how == 'put-none':
+                    node.put(None, fld)
+                elif how == 'remove':
+                    getattr(node, fld).remove()
+                else:
+                    delattr(node, fld)
+            except Exception as e:
+                ctx.dist[f'op:targeted-optional:{how}:refused'] = ctx.dist.get(f'op:targeted-optional:{how}:refused', 0) + 1
+                continue
+            ctx.tick(('targeted-g', src, path, fld, how), 'op:targeted-optional-field-delete')
+            after = root.src
+            have = comments(after)
+            rec = {'before': src, 'node': path, 'field': fld, 'action': how, 'after': after}
+            try:
+                ast.parse(after)
+                ok = True
+            except SyntaxError as e:
+                ok = False
+            if have is None or not ok:
+                ctx.violation('text|targeted|optional-field|unparsable', 'deleting an optional child left source that does not parse', rec)
+                continue
+            lost = [c for c in outer if c not in have]
+            if lost:
+                ctx.violation(f'comment-lost|optional-field-delete|{type(node.a).__name__}.{fld}', 'deleting an optional child removed a comment that lies outside it', {**rec, 'lost': lost})
+                continue
+            # ... and put back
+            try:
+                node.put(saved, fld)
+            except Exception as e:
+                ctx.dist['op:targeted-optional:put-back:refused'] = ctx.dist.get('op:targeted-optional:put-back:refused', 0) + 1
+                continue
+            ctx.tick(('targeted-g', src, path, fld, how, 'back'), 'op:targeted-optional-field-put-back')
+            back = root.src
+            have2 = comments(back)
+            try:
+                same = have2 is not None and not cmp_ast(ast.parse(back), ast.parse(src), positions=False)
+            except SyntaxError:
+                same = False
+            if not same:
+                ctx.violation('text|targeted|optional-field|put-back', 'putting a deleted optional child back does not give the original structure', {**rec, 'after_put_back': back})
+            elif any(c not in have2 for c in outer):
+                ctx.violation(f'comment-lost|optional-field-put|{type(node.a).__name__}.{fld}', 'putting an optional child removed a comment that lies outside it', {**rec, 'after_put_back': back, 'lost': [c for c in outer if c not in have2]})
     # (b)
     lines = ['d = {{"ключ": {E}, "k": [y, z]}}  # коммент', 'r = "naïve café" + {E} * w', 'f("日本語", {E}, kw={E2})', 'ü = [é, {E}, "ö"]']
     for tmpl in lines:
